@@ -197,6 +197,7 @@ def make_case(rng, fmt, nops, canonical=None, parts=False):
         k = rng.randrange(1, len(tabs[0]) - 1)
         size = len("".join(r["raw"] for r in tabs[0][:k]).encode("latin-1"))
         pl = _parts_lens(fmt, shape["samples"], tabs, size)
+        lens = [len(t) for t in tabs]
         if pl:
             pinfo = {"size": size, "lens": pl}
             lens = list(pl)
@@ -709,5 +710,9 @@ def finding_key(c, got, exp):
     if k == "write" and how == "values-differ" and _body(c, a["bytes"]) == _body(c, b["bytes"]):
         how = "eager-header-differs"
     if k in ("row", "iter", "str") and how != "values-differ":
-        return f"row:{how}"         # t[i], iteration and str() all take single rows of the columns
+        # t[i], iteration and str() all take single rows of the columns; the exception class separates the recorded npstructures
+        # TypeError from any other way of failing in one mode only
+        mode = "lazy" if how == "lazy-raises" else "eager"
+        exc = got.get("errs", {}).get(mode, {}).get(str(i), "?")
+        return f"row:{how}" if exc == "TypeError" else f"row:{how}:{exc}"
     return f"{c['fmt']}:{k}:{how}"
